@@ -184,6 +184,9 @@ class OpWorld(World):
             return f(self.lift(it, inner))
         if isinstance(v, tuple):
             return it.to_val(tuple(ValSV(self.lift(it, x)) for x in v))
+        if isinstance(v, Obj) and any(getattr(k, "is_exc", False) for k in it.mro(v.cls)):
+            f = z3.Function(f"exc_{v.cls.name}", smt.Val, smt.Val)
+            return f(it.to_val(tuple(ValSV(self.lift(it, x)) for x in v.fields.get("args", ()))))
         return it.to_val(v)
 
     def current_thread(self, it):
@@ -362,7 +365,23 @@ class OpHarness:
         s = Obj(cls)
         for n, v in params.items():
             s.fields[n] = v
+        for sname in self.c.sources:
+            s.fields[sname] = self.env.vars[sname]
         return s
+
+    def make_element(self, it, ctx):
+        kind = self.c.elem
+        if kind == "val":
+            return ctx.fresh("x", "val")
+        if kind == "notification":
+            k = ctx.choose(3, "notification_kind")
+            mod = "reactivex.notification"
+            if k == 0:
+                return it.call(it.module_get(mod, "OnNext"), [ctx.fresh("x", "val")])
+            if k == 1:
+                return it.call(it.module_get(mod, "OnError"), [SV(ctx.fresh("nerr", "val").t, "val", tag="exc")])
+            return it.call(it.module_get(mod, "OnCompleted"), [])
+        raise Unsupported(f"element kind {kind}")
 
     def spec_call(self, it, s, name, args):
         m = it.class_lookup(s.cls, name)
@@ -564,7 +583,7 @@ class OpHarness:
             havoc_cell(it, ctx, cells_env, leaf, kind, get, set_)
         # spec state: havoc every non-parameter field by the kind of its initial value
         for n, v in list(s.fields.items()):
-            if n in c.params:
+            if n in c.params or n in c.sources:
                 continue
             kind = (c.spec_args or {}).get(n)
             if kind is None:
@@ -594,10 +613,14 @@ class OpHarness:
         hname = ("on_next", "on_error", "on_completed")[slot]
         uid = f"{c.uid}/{source}.{hname}"
         self.havoc(it, ctx, cells_env, s)
-        inv = self.check_inv(it, ctx, uid, cells_env, s)
-        ctx.assume(inv if not isinstance(inv, bool) else z3.BoolVal(inv))
+        # effective invariant: done(s) \/ inv  -- after the operator terminated downstream nothing it
+        # does is observable (C01), so its cells are unconstrained there; only "no exception
+        # escapes" is still required.
         done = self.spec_done(it, ctx, s)
         is_done = done if isinstance(done, bool) else ctx.branch(done, "already-terminated")
+        if not is_done:
+            inv = self.check_inv(it, ctx, uid, cells_env, s)
+            ctx.assume(inv if not isinstance(inv, bool) else z3.BoolVal(inv))
         # fresh traces
         w.traces.clear()
         w.events.clear()
@@ -606,7 +629,7 @@ class OpHarness:
             w.trace("spec_out").terminal = ("X",)
         args = []
         if slot == 0:
-            args = [ctx.fresh("x", "val")]
+            args = [self.make_element(it, ctx)]
         elif slot == 1:
             args = [SV(ctx.fresh("err", "val").t, "val", tag="exc")]
         if h is None:
@@ -615,6 +638,9 @@ class OpHarness:
             it.call(h, args, {})
         except PyExc as e:
             self.fail(ctx, uid + "/no-exception-escapes", f"exception escapes the handler: {e.value!r}", kind="exc")
+            return
+        if is_done:
+            self.record(ctx, uid + "/after-termination/no-exception-escapes", True, kind="exc")
             return
         out = Opaque("observer", "spec_out")
         rr = self.spec_call(it, s, hname, [out] + args)
@@ -628,7 +654,8 @@ class OpHarness:
         self.compare_traces(ctx, uid + "/out", w.trace("observer"), w.trace("spec_out"))
         if slot == 0:
             inv2 = self.check_inv(it, ctx, uid, cells_env, s)
-            self.record(ctx, uid + "/inv-preserved", inv2, kind="inv")
+            done2 = self.spec_done(it, ctx, s)
+            self.record(ctx, uid + "/inv-preserved", natives.mk_or(done2, inv2), kind="inv")
 
     # -- driver -------------------------------------------------------------------------
     def run(self):
